@@ -135,6 +135,45 @@ def make_run_script(rng, name, kind=None):
     lines.append("titer")
     return f"=== {name} plan={plan} nkeys={n + 6}\n" + "\n".join(lines) + "\n"
 
+def make_last_script(rng, name, kind=None):
+    """C06: the LAST element of a table full of tombstones.  n elements under one hash (or hashes sharing
+    a probe start), n above one group, so that late elements live in a later probe group; all but one
+    (usually a late one) are removed one by one -- the groups in front of the survivor hold only
+    DELETED bytes; then the survivor is removed and an element re-inserted through the VacantEntry that
+    OccupiedEntry::remove returned (the slot it names was only valid because of those tombstones), and
+    looked up through find / iter_hash / entry; then the table is refilled."""
+    kind = kind or rng.choice(["table-drop", "table-plain", "table-200"])
+    plan = rng.choice(["zero", "zero", "max", "lowpos", "twotags", "wrap", "sametag"])
+    n = rng.choice([9, 12, 17, 18, 20, 24, 28, 33, 40, 56])
+    salt = rng.getrandbits(32)
+    lines = [f"kind {kind}"] + [f"hash {k} {plan_hash(plan, k, rng, salt)}" for k in range(n + 8)]
+    stamp = [0]
+    def st():
+        stamp[0] += 1
+        return stamp[0]
+    if rng.random() < 0.3:
+        lines.append(f"twithcap {rng.choice([n, 2 * n, 57])}")
+    for k in range(n):
+        lines.append(f"tinsertunique {k} {st()} {rng.randrange(100)}")
+    keepn = rng.choice([1, 1, 1, 2, 3])
+    survivors = sorted(rng.sample(range(n), keepn)) if rng.random() < 0.3 else list(range(n - keepn, n))
+    order = [k for k in range(n) if k not in survivors]
+    if rng.random() < 0.5:
+        rng.shuffle(order)
+    for k in order:
+        lines.append(rng.choice([f"tfindentryremove {k} id {k}", f"tfindentryremove {k} id {k}", f"tremovereinsert {k} id {k} {st()} 0\ntfindentryremove {k} id {k}"]))
+    lines.append("tlen"); lines.append("tcapacity")
+    for k in survivors:
+        lines.append(f"tremovereinsert {k} id {k} {st()} {rng.randrange(100)}")
+        lines.append(f"tfind {k} id {k}"); lines.append(f"titerhash {k}"); lines.append(f"tentrydrop {k}")
+    lines.append("titer"); lines.append("tlen")
+    for k in rng.sample(range(n + 4), min(n + 4, rng.choice([2, 5, n // 2]))):
+        lines.append(rng.choice([f"tentryorinsert {k} {st()} {rng.randrange(100)}", f"tfind {k} id {k}", f"tinsertunique {k} {st()} 1"]))
+    for k in survivors:
+        lines.append(f"tfind {k} id {k}")
+    lines.append("titer")
+    return f"=== {name} plan={plan} nkeys={n + 6}\n" + "\n".join(lines) + "\n"
+
 def make_many_script(rng, name, kind=None):
     """C15: get_many_mut on small and medium tables whose elements share a tag (so that a lookup under
     ANOTHER element's hash reaches them), with closures from exact (id) to sloppy (value classes,
